@@ -78,7 +78,12 @@ def dag_grammars(rnd, n):
     out = []
     for _ in range(n):
         k = rnd.randint(3, 6)
-        names = ["G%d" % i for i in range(k)]
+        # names differ from grammar to grammar: the order in which complgen walks its name-keyed hash tables depends on them
+        names = []
+        while len(names) < k:
+            nm = rnd.choice("ABCDEFGHJKLMNOPQRSTVWYZ") + "".join(rnd.choice("abcdefghijklmnopqrstuvwxyz0123456789-") for _ in range(rnd.randint(1, 6)))
+            if nm not in names and not nm.endswith("-"):
+                names.append(nm)
         defs = []
         for i, nm in enumerate(names):
             later = names[i + 1:]
